@@ -50,7 +50,14 @@ func NewDecimal(i int64, exponent int) (Decimal, error) {
 		intPart = i / int64(math.Pow10(-exponent))
 		fracPart = i % int64(math.Pow10(-exponent)) * int64(math.Pow10(4+exponent))
 	} else {
-		intPart = i * int64(math.Pow10(exponent))
+		scale := int64(math.Pow10(exponent))
+		// the product can wrap past 2^64 back into range: compare against the quotient instead
+		if i > math.MaxInt64/scale {
+			return Decimal{}, fmt.Errorf("%w: value %ve%v would overflow", errDecimal, i, exponent)
+		} else if i < math.MinInt64/scale {
+			return Decimal{}, fmt.Errorf("%w: value %ve%v would underflow", errDecimal, i, exponent)
+		}
+		intPart = i * scale
 		if i > 0 && intPart < i {
 			return Decimal{}, fmt.Errorf("%w: value %ve%v would overflow", errDecimal, i, exponent)
 		} else if i < 0 && intPart > i {
@@ -76,7 +83,11 @@ func NewDecimalFromInt[T constraints.Signed](i T) (Decimal, error) {
 // Decimal above those sizes, use the NewDecimal constructor.
 func NewDecimalFromFloat[T constraints.Float](f T) (Decimal, error) {
 	f = f * decimalPrecision
-	if f > math.MaxInt64 {
+	if f != f {
+		return Decimal{}, fmt.Errorf("%w: value is not a number", errDecimal)
+	}
+	// float(math.MaxInt64) is 2^63, which is already out of range
+	if f >= math.MaxInt64 {
 		return Decimal{}, fmt.Errorf("%w: value %v would overflow", errDecimal, f)
 	} else if f < math.MinInt64 {
 		return Decimal{}, fmt.Errorf("%w: value %v would underflow", errDecimal, f)
